@@ -112,6 +112,7 @@ type xferWorld struct {
 	lastMoveAt    time.Duration
 	capHit        bool
 	noServer        bool               // start the client (and relays) only
+	firers          []*vFirer
 	clientConnector func(int) net.Conn // overrides the client's tunnel connector (C17)
 	paused        bool // a pause was requested at some point (keep-alive lines are legitimate)
 }
@@ -862,4 +863,12 @@ func (x *xferWorld) hangClass() string {
 		cls += ":server-awaiting-act"
 	}
 	return cls
+}
+
+// firerPlaces: number of candidate places the first firer saw (enumeration space of the run).
+func (x *xferWorld) firerPlaces() int {
+	if len(x.firers) == 0 {
+		return 0
+	}
+	return x.firers[0].count
 }
